@@ -685,7 +685,7 @@ func (g *checker) famStack() {
 				n, t, target := n, t, target
 				g.next(func() *spec {
 					code := append([]byte{0x60, byte(target), 0x56}, tail...)
-					return &spec{fam: "truncated-push", op: name(byte(0x5f + n)), sigKind: "jump", noEpilogue: true,
+					return &spec{fam: "truncated-push", op: "truncated-push", sigKind: "jump", noEpilogue: true,
 						desc: fmt.Sprintf("JUMP to %d in code ending with %s carrying %d of %d immediate bytes (all 0x5b)", target, name(byte(0x5f+n)), t, n), body: code}
 				})
 			}
@@ -916,7 +916,7 @@ func (g *checker) famJump() {
 					n, a, pi, target := n, a, pi, target
 					g.next(func() *spec {
 						code := append([]byte{0x61, byte(target >> 8), byte(target), 0x56}, tail...)
-						return &spec{fam: "pushdata", op: name(byte(0x5f + n)), sigKind: "jump",
+						return &spec{fam: "pushdata", op: "push-data", sigKind: "jump",
 							desc: fmt.Sprintf("JUMP to %d; code: %d JUMPDEST, %s with data pattern %d, JUMPDEST", target, a, name(byte(0x5f+n)), pi), body: code}
 					})
 				}
